@@ -213,6 +213,9 @@ func (e *Engine) frameCheckRegion(st *State, fr *Frame, elem types.Type, obj, lo
 	if root.spec == nil || root.spec.ModAny {
 		return
 	}
+	if e.guardedArrayWrite(st, obj) {
+		return // lock-guarded state: governed by the lock discipline and the atomic clauses, not by the frame
+	}
 	ctx := &specCtx{e: e, st: st, env: e.entryEnv(root), heaps: st.old, oldHeaps: st.old, pkg: root.fn.Pkg}
 	allowed := Or(Ge(obj, st.alloc0), Ge(lo, hi))
 	for _, m := range root.spec.Modifies {
